@@ -45,7 +45,7 @@ processors:
     processor: Filter
     parameters:
       - key: status_code_range
-        value: "%d-%d"
+        value: "%d-%d"%s
   %s:
     processor: Retry
     parameters:
@@ -207,14 +207,19 @@ type engineInst struct {
 var engineSeq int
 
 // newEngine writes the flow and builds + initialises a real Stream.  Returns the init error.
-func newEngine(scratch, name string, attempts, cooldown int, mult string, lo, hi int, timeout int) (*engineInst, error) {
+func newEngine(scratch, name string, attempts, cooldown int, mult string, lo, hi int, timeout int, method string) (*engineInst, error) {
 	engineGlobalSetup(scratch)
 	engineSeq++
 	dir := filepath.Join(scratch, fmt.Sprintf("e%d", engineSeq))
 	for _, d := range []string{"flows", "quotas", "path_params"} {
 		must(os.MkdirAll(filepath.Join(dir, d), 0o755))
 	}
-	flow := fmt.Sprintf(flowTmpl, lo, hi, name, attempts, cooldown, mult, name, name, name)
+	extra := ""
+	if method != "" {
+		// a second criterion next to the status range (the requests of the harness are GET)
+		extra = "\n      - key: method\n        value: " + method
+	}
+	flow := fmt.Sprintf(flowTmpl, lo, hi, extra, name, attempts, cooldown, mult, name, name, name)
 	must(os.WriteFile(filepath.Join(dir, "flows", "flow.yaml"), []byte(flow), 0o644))
 	environment.SetStreamsFlowsDirectory(filepath.Join(dir, "flows"))
 	os.Setenv("LUNAR_PROXY_QUOTAS_DIRECTORY", filepath.Join(dir, "quotas"))
